@@ -7,6 +7,7 @@ from contracts.container_oracle import close
 
 water = Substance.liquid('water', 18.0153, 1)
 salt = Substance.solid('salt', 58.44)
+dmso = Substance.liquid('dmso', 78.13, 1.1)
 zinc = Substance.solid('zinc sulfate', 161)
 amm = Substance.solid('ammonium chloride', 53)      # deliberately not in alphabetical order in the solute list
 
@@ -27,7 +28,7 @@ def scenario(kind):
     """returns (recipe builder, eager function) for the step kind; both start from the same declared objects"""
     op, _, var = kind.partition(':')
     A = Container('A', '50 mL', [(water, '20 mL'), (salt, '10 mmol')])
-    Bc = Container('B', '50 mL', [(water, '1 mL')])
+    Bc = Container('B', '50 mL', [(water, '1 mL'), (dmso, '0.5 mL')])     # two liquids: a remove by KIND must take both
     P = Plate('P', '2 mL', rows=2, columns=2)
     Q = Plate('Q', '2 mL', rows=2, columns=2)
     r = Recipe()
@@ -66,7 +67,10 @@ def scenario(kind):
         step('solution_from', 'A', 'N')
     elif op == 'remove':
         tgt = {'c': 'B', 'class': 'B', 'p': 'P', 's': sl('P')}[var]
-        step('remove', tgt)
+        if var == 'class':
+            step('remove', tgt, Substance.LIQUID)
+        else:
+            step('remove', tgt)
     elif op == 'dilute':
         step('dilute', 'B2' if False else 'A')
     elif op == 'fill_to':
@@ -160,7 +164,7 @@ def replay(kind, clause):
         elif st[0] == 'solution_from':
             renv['N'] = r.create_solution_from(renv['A'], salt, '0.1 M', water, '5 mL', 'N')
         elif st[0] == 'remove':
-            r.remove(rresolve(renv, st[1]), water)
+            r.remove(rresolve(renv, st[1]), *st[2:] or (water,))
         elif st[0] == 'dilute':
             r.dilute(renv['A'], salt, '0.25 M', water, *st[2:])
         elif st[0] == 'fill_to':
@@ -199,7 +203,7 @@ def replay(kind, clause):
         elif st[0] == 'solution_from':
             e['A'], e['N'] = Container.create_solution_from(e['A'], salt, '0.1 M', water, '5 mL', 'N')
         elif st[0] == 'remove':
-            e[name_of(st[1])] = resolve(e, st[1]).remove(water)
+            e[name_of(st[1])] = resolve(e, st[1]).remove(*st[2:] or (water,))
         elif st[0] == 'dilute':
             e['A'] = e['A'].dilute(salt, '0.25 M', water, *st[2:])     # a renamed result stays filed under the operand's name
         elif st[0] == 'fill_to':
